@@ -11,6 +11,10 @@
 #include <chrono>
 #include <memory>
 #include <unistd.h>
+#include <dlfcn.h>
+#include <stdarg.h>
+#include <sys/syscall.h>
+#include <linux/futex.h>
 
 #include "torrent/exceptions.h"
 #include "torrent/system/callbacks.h"
@@ -19,6 +23,26 @@
 
 using namespace ltv;
 using namespace std::chrono_literals;
+
+// std::atomic<uint32_t>::wait / notify_all (libstdc++ <bits/atomic_wait.h>, compiled into the library objects) end in
+// syscall(SYS_futex, addr, FUTEX_WAIT_PRIVATE / FUTEX_WAKE_PRIVATE, ...). This definition takes precedence over libc's
+// for every reference linked into this executable, so the controller SEES each real notify and each real block:
+// a waiter is parked as blocked until some thread actually notifies its address (sched.h, futex emulation).
+extern "C" __attribute__((no_sanitize_address)) long syscall(long n, ...) noexcept {
+  va_list ap;
+  va_start(ap, n);
+  long a[6];
+  for (auto& x : a) x = va_arg(ap, long);
+  va_end(ap);
+  if (n == SYS_futex) {
+    int  op = static_cast<int>(a[1]) & FUTEX_CMD_MASK;
+    long ret;
+    if (op == FUTEX_WAIT && Controller::futex_wait(reinterpret_cast<const void*>(a[0]), static_cast<uint32_t>(a[2]), ret)) return ret;
+    if (op == FUTEX_WAKE && Controller::futex_wake(reinterpret_cast<const void*>(a[0]), ret)) return ret;
+  }
+  static auto real = reinterpret_cast<long (*)(long, ...)>(dlsym(RTLD_NEXT, "syscall"));
+  return real(n, a[0], a[1], a[2], a[3], a[4], a[5]);
+}
 
 namespace {
 
@@ -193,8 +217,10 @@ std::string run_case(const std::string& line) {
   cs.pending.assign(cs.nthreads, {});
 
   std::string out = "S";
+  std::string final_words;
   {
     Controller ctrl;
+    ctrl.futex_emulation = true;
     ctrl.after_grant = [&cs](int i) {
       for (auto& e : cs.pending[i]) cs.step_events.push_back(e);
       cs.pending[i].clear();
@@ -224,6 +250,7 @@ std::string run_case(const std::string& line) {
     }
     std::string fin;
     for (int i = 0; i < cs.nthreads; i++) fin += ctrl.is_done(i) ? "1" : "0";
+    final_words = words(cs);   // finish() perturbs the word a blocked waiter sleeps on
     ctrl.finish();
     out += " | F " + fin + " C " + (cs.crashed ? "1" : "0") + " Q ";
   }
@@ -232,7 +259,7 @@ std::string run_case(const std::string& line) {
   out += " H ";
   for (int i = 0; i < cs.nthreads; i++)
     out += std::string(i ? "," : "") + (cs.threads[i]->m_has_callbacks.load() ? "1" : "0") + (cs.threads[i]->m_has_interrupt_callbacks.load() ? "1" : "0");
-  out += " W " + words(cs);
+  out += " W " + final_words;
   return out;
 }
 
